@@ -131,6 +131,7 @@ def check(rep, an, tier):
                     R.rule_purity(rep, res, entry)
                     R.rule_effect_free(rep, res, entry)
                     R.rule_dtype(rep, res, entry)
+                    R.rule_block_cover(rep, res, entry)
                     CC.membership_frames(rep, res, entry)
                     CC.corner_subset(rep, res, entry)
                     if meth == "hull_dist_scaling":
